@@ -30,10 +30,12 @@ class Finding(object):
     def __init__(self, idx, line, kind, reason, expected, got):
         self.idx, self.line, self.kind, self.reason, self.expected, self.got = idx, line, kind, reason, expected, got
         self.props = KIND_PROPS.get(kind, [])
+        self.backend = None
 
     def to_json(self):
         return {"index": self.idx, "line": self.line, "kind": self.kind, "reason": self.reason,
-                "expected": (self.expected or "")[:3000], "got": (self.got or "")[:3000], "properties": self.props}
+                "expected": (self.expected or "")[:3000], "got": (self.got or "")[:3000], "properties": self.props,
+                "backend": self.backend}
 
 
 def parse_report(ans):
